@@ -1354,7 +1354,95 @@ func (fe *FE) makeInterface(st *State, v Val, from, to types.Type) Val {
 	}
 	tid := fe.V.typeID(from)
 	st.assume(and("(> "+ref+" 0)", eq("(dyn_type "+ref+")", fmt.Sprintf("%d", tid))))
+	// payload observers used by the reflect model (prelude.smt2: ikind/ibits/ifloat/istr/ibool)
+	if k := reflectKindOf(from); k > 0 {
+		st.assume(eq("(ikind "+ref+")", fmt.Sprintf("%d", k)))
+	}
+	if v.Kind == VScalar {
+		switch {
+		case isBVSort(v.Sort):
+			var w int
+			fmt.Sscanf(v.Sort, "(_ BitVec %d)", &w)
+			t := v.T
+			if w < 64 {
+				ext := "zero_extend"
+				if isSignedT(from) {
+					ext = "sign_extend"
+				}
+				t = fmt.Sprintf("((_ %s %d) %s)", ext, 64-w, v.T)
+			}
+			st.assume(eq("(ibits "+ref+")", t))
+		case v.Sort == SF64:
+			st.assume(eq("(ifloat "+ref+")", v.T))
+		case v.Sort == SF32:
+			st.assume(eq("(ifloat "+ref+")", "((_ to_fp 11 53) RNE "+v.T+")"))
+		case v.Sort == SStr:
+			st.assume(eq("(istr "+ref+")", v.T))
+		case v.Sort == SBool:
+			st.assume(eq("(ibool "+ref+")", v.T))
+		}
+	}
 	return scalar(ref, SInt, to)
+}
+
+// reflectKindOf: the reflect.Kind of a static Go type (0 if it has none, e.g. an interface)
+func reflectKindOf(t types.Type) int {
+	switch u := t.Underlying().(type) {
+	case *types.Basic:
+		switch u.Kind() {
+		case types.Bool, types.UntypedBool:
+			return 1
+		case types.Int, types.UntypedInt:
+			return 2
+		case types.Int8:
+			return 3
+		case types.Int16:
+			return 4
+		case types.Int32, types.UntypedRune:
+			return 5
+		case types.Int64:
+			return 6
+		case types.Uint:
+			return 7
+		case types.Uint8:
+			return 8
+		case types.Uint16:
+			return 9
+		case types.Uint32:
+			return 10
+		case types.Uint64:
+			return 11
+		case types.Uintptr:
+			return 12
+		case types.Float32:
+			return 13
+		case types.Float64, types.UntypedFloat:
+			return 14
+		case types.Complex64:
+			return 15
+		case types.Complex128:
+			return 16
+		case types.String, types.UntypedString:
+			return 24
+		case types.UnsafePointer:
+			return 26
+		}
+	case *types.Array:
+		return 17
+	case *types.Chan:
+		return 18
+	case *types.Signature:
+		return 19
+	case *types.Map:
+		return 21
+	case *types.Pointer:
+		return 22
+	case *types.Slice:
+		return 23
+	case *types.Struct:
+		return 25
+	}
+	return 0
 }
 
 func isPointerLike(t types.Type) bool {
